@@ -426,6 +426,36 @@ def check(ctx: Ctx) -> None:
         if not found:
             ob.site(ss, main, "no execnet import on the stand-alone path")
 
+    with ctx.obligation("C15.k", "remote-python-verbatim") as ob:
+        # python= is a command *prefix* (interpreter plus options such as -S -E, or a sudo/env wrapper): popen splits it into words,
+        # the ssh transports must hand it to the remote shell as it is -- quoting it makes one word of it
+        from ..terms import evaluator as _evq, string_pieces as _piecesq
+        nq = 0
+        for fname in ("ssh_args", "vagrant_ssh_args"):
+            if not repo.has_func(f"gateway_io.{fname}"):
+                continue
+            fq = repo.func(f"gateway_io.{fname}")
+            sp_ = fq.params()[0]
+            good = False
+            seen_cmd = False
+            for (_p, st_) in _evq(repo, fq).run(limit=4000):
+                for e in st_.events:
+                    for a in list(e.args or ()) + ([e.value] if e.value is not None else []):
+                        ps = _piecesq(a) if isinstance(a, tuple) else None
+                        if ps and any(isinstance(x, str) and " -c " in x for x in ps):
+                            seen_cmd = True
+                            holes = [x for x in ps if not isinstance(x, str)]
+                            if holes and holes[0][0] == "str" and holes[0][1] in (("or", ("sym", f"{sp_}.python"), ("const", "python")), ("sym", f"{sp_}.python")):
+                                good = True
+            if seen_cmd:
+                nq += 1
+                ob.site(fq, fq.node, f"{fname}: remote command = <spec.python or 'python'> -c \"<bootstrap>\"", ok=good)
+                if not good:
+                    ob.violation(fq, fq.node, f"{fname} does not put `spec.python or 'python'` verbatim in front of the remote command: a python= value with options or a "
+                                              "wrapper (the way to start a bare interpreter) reaches the remote shell as one word and the worker never starts",
+                                 construct=f"{fname}: python= not verbatim")
+        ob.require(nq >= 1, "ssh_args: remote command construction not found")
+
     # ---- C15.j names imported from the standard library exist on an older supported interpreter too
     with ctx.obligation("C15.j", "stdlib-names-portable") as ob:
         from ..closure import oldest_stdlib_root, stdlib_exports
